@@ -762,6 +762,19 @@ NextPin:
 			rollback()
 			return fmt.Errorf("Node type must be sent with new edges")
 		}
+		// a node must not become its own ancestor, the upstream walks
+		// (hash update, rebroadcast of points) would never end
+		cycle, err := sdb.isAncestor(tx, nodeID, parentID, make(map[string]bool))
+		if err != nil {
+			rollback()
+			return err
+		}
+
+		if cycle {
+			rollback()
+			return fmt.Errorf("Error: node %v is an ancestor of %v", nodeID, parentID)
+		}
+
 		// did not find edge, need to add it
 		edge.Up = parentID
 		edge.Down = nodeID
@@ -855,6 +868,33 @@ NextPin:
 	}
 
 	return nil
+}
+
+// isAncestor returns true if id is node `of` or can be reached from it by
+// walking upstream (deleted edges are walked as well)
+func (sdb *DbSqlite) isAncestor(tx *sql.Tx, id, of string, visited map[string]bool) (bool, error) {
+	if id == of {
+		return true, nil
+	}
+
+	if visited[of] {
+		return false, nil
+	}
+	visited[of] = true
+
+	edges, err := sdb.edges(tx, "SELECT * FROM edges WHERE down=?", of)
+	if err != nil {
+		return false, err
+	}
+
+	for _, e := range edges {
+		found, err := sdb.isAncestor(tx, id, e.Up, visited)
+		if err != nil || found {
+			return found, err
+		}
+	}
+
+	return false, nil
 }
 
 // updateHash applies hashUpdate to all edges that point to node id, and to
